@@ -126,6 +126,14 @@ func ops() []opdef {
 		c, _, _, _ := tcpPair(64, false)
 		return func(ctx context.Context) error { _, err := c.Receive(ctx); return err }
 	})
+	add("ws/transport.Send/peer-not-reading", 0, func(x *harness.X) func(context.Context) error {
+		c, _, _, _ := lib.Transports("ws", 64, nil)
+		return func(ctx context.Context) error { return c.Send(ctx, lib.Msg("m", bigText)) }
+	})
+	add("ws/transport.Receive/silent", 0, func(x *harness.X) func(context.Context) error {
+		c, _, _, _ := lib.Transports("ws", 64, nil)
+		return func(ctx context.Context) error { _, err := c.Receive(ctx); return err }
+	})
 	// ---- channel sends and command processing: the peer application consumes nothing
 	for _, kind := range []string{"inproc", "tcp", "ws"} {
 		kind := kind
@@ -331,7 +339,7 @@ func main() {
 		Property: "C15",
 		Level:    "model_checking",
 		Rule:     fmt.Sprintf("%d operation/transport/peer combinations (transport Send/Receive, in-process Accept, the four channel sends and ProcessCommand with a peer that consumes nothing, client FinishSession, server and client EstablishSession with a silent peer and with a server going silent after negotiation options, after the authentication request and after confirming tls) x {deadline, cancellation by another goroutine, cancellation of a context that also has a far deadline} x {3s, 7s}; one operation per execution; all schedules within the deviation bound (delay bounding); latency measured on the virtual clock, which only advances when every goroutine is blocked; distinct outcome = distinct observation log", len(all)),
-		Assume:   []string{"virtual-clock promptness: shows the return does not depend on any timer later than allowed, not wall-clock microseconds", "real TCP/WebSocket listeners' Accept and the WebSocket transport use OS sockets and are not explored (the repository's own tests cover their deadline case natively)"},
+		Assume:   []string{"virtual-clock promptness: shows the return does not depend on any timer later than allowed, not wall-clock microseconds", "real TCP/WebSocket listeners' Accept uses OS sockets and is not explored (the repository's own tests cover the deadline case natively); the WebSocket transport itself is (gorilla connections over a virtual pipe)"},
 		Scenarios: []harness.Scenario{
 			{Name: "isolated-ops", Opt: opt, Quick: 1, Thorough: 2, Prune: false, Body: body(all), Final: final},
 		},
